@@ -422,3 +422,25 @@ def same_elem_obj(a, b):
 def elem_is(x, s, j):
     """x is s[j]"""
     return x is s[j]
+
+
+# ---------------------------------------------------------------------------
+# abstract lists (C14y, pyvc/abslist.py): lists whose elements the verified function never inspects
+def alist_len(L):
+    return len(L)
+
+
+def alist_all(fn, L):
+    """every element e of the list L satisfies fn(e) (fn a named top-level spec function)"""
+    return all(bool(fn(e)) for e in L)
+
+
+def alist_parts_is(L, n):
+    """symbolic: L is the concatenation of exactly n opaque pieces (results of modular calls), i.e. no piece was
+    dropped or duplicated; native: the pieces of a real list are not observable (True)"""
+    return True
+
+
+def alist_same(a, b):
+    """symbolic: the same concatenation of the same opaque pieces; native: equal lists"""
+    return list(a) == list(b)
